@@ -2933,3 +2933,82 @@ def fold_tested_names(fn: ast.AST) -> int:
     if count[0]:
         ast.fix_missing_locations(fn)
     return count[0]
+
+
+def scalarise_slot_dicts(fn: ast.AST) -> int:
+    """S21: `slots = {"a": None, "b": None}` ... `if key in slots: slots[key] = v` ... `slots["a"]`: a local dict with constant keys used as a table of
+    slots -- only indexed by its own constants, or filled under a membership test of the very key -- as one local per key and the
+    if/elif chain on the key that the membership test abbreviates."""
+    if not isinstance(fn, (ast.FunctionDef, ast.AsyncFunctionDef)):
+        return 0
+    esc = escaping_names(fn) | params_of(fn)
+    n_done = 0
+    for st in list(own_nodes(fn)):
+        d = plain_assign(st)
+        if not d or d in esc or not isinstance(st.value, ast.Dict) or not st.value.keys or len(st.value.keys) > 8:
+            continue
+        if not all(isinstance(k, ast.Constant) and isinstance(k.value, str) for k in st.value.keys) or len({k.value for k in st.value.keys}) != len(st.value.keys):
+            continue
+        if not all(isinstance(v, (ast.Constant, ast.Name)) for v in st.value.values):
+            continue
+        keys = [k.value for k in st.value.keys]
+        loads, stores = names_in(fn, d)
+        if len(stores) != 1:
+            continue
+        up = parents(fn)
+        fills = []      # (if statement, key expression, value)
+        const_uses = []
+        ok = True
+        for ld in loads:
+            p = up.get(id(ld))
+            if isinstance(p, ast.Subscript) and p.value is ld and isinstance(p.slice, ast.Constant) and p.slice.value in keys:
+                const_uses.append(p)
+                continue
+            if isinstance(p, ast.Compare) and len(p.ops) == 1 and isinstance(p.ops[0], ast.In) and p.comparators[0] is ld:
+                ifst = up.get(id(p))
+                if isinstance(ifst, ast.If) and ifst.test is p and not ifst.orelse and len(ifst.body) == 1 and isinstance(ifst.body[0], ast.Assign) and len(ifst.body[0].targets) == 1:
+                    tgt = ifst.body[0].targets[0]
+                    if isinstance(tgt, ast.Subscript) and isinstance(tgt.value, ast.Name) and tgt.value.id == d and ast.dump(tgt.slice) == ast.dump(p.left) and _simple(p.left):
+                        fills.append((ifst, p.left, ifst.body[0].value))
+                        continue
+                ok = False
+                break
+            if isinstance(p, ast.Subscript) and p.value is ld and isinstance(p.ctx, ast.Store) and isinstance(up.get(id(p)), ast.Assign) and isinstance(up.get(id(up.get(id(p)))), ast.If) \
+                    and any(f[0] is up.get(id(up.get(id(p)))) for f in fills):
+                continue
+            ok = False
+            break
+        if not ok or not (fills or const_uses):
+            continue
+        # the Store subscript inside a fill comes after its `in` test in walk order or before: re-validate that every load is accounted for
+        accounted = {id(u.value) for u in const_uses}
+        for ifst, key_e, _v in fills:
+            accounted.add(id(ifst.test.comparators[0]))
+            accounted.add(id(ifst.body[0].targets[0].value))
+        if any(id(ld) not in accounted for ld in loads):
+            continue
+        slot = {k: f"{d}__{i}" for i, k in enumerate(keys)}
+        for u in const_uses:
+            replace_child(up.get(id(u)), u, ast.copy_location(ast.Name(id=slot[u.slice.value], ctx=type(u.ctx)()), u))
+        for ifst, key_e, val in fills:
+            chain = None
+            for k in reversed(keys):
+                test = ast.Compare(left=copy.deepcopy(key_e), ops=[ast.Eq()], comparators=[ast.Constant(value=k)])
+                body = [ast.Assign(targets=[ast.Name(id=slot[k], ctx=ast.Store())], value=copy.deepcopy(val))]
+                chain = ast.If(test=test, body=body, orelse=[chain] if chain is not None else [])
+            ast.copy_location(chain, ifst)
+            ifst.test, ifst.body, ifst.orelse = chain.test, chain.body, chain.orelse
+            ast.fix_missing_locations(ifst)
+        new = [ast.copy_location(ast.Assign(targets=[ast.Name(id=slot[k.value], ctx=ast.Store())], value=v), st) for k, v in zip(st.value.keys, st.value.values)]
+        parent = up.get(id(st))
+        for fld in ("body", "orelse", "finalbody"):
+            lst = getattr(parent, fld, None)
+            if isinstance(lst, list) and st in lst:
+                i = lst.index(st)
+                lst[i:i + 1] = new
+        for x in new:
+            ast.fix_missing_locations(x)
+        n_done += 1
+    if n_done:
+        ast.fix_missing_locations(fn)
+    return n_done
